@@ -471,8 +471,8 @@ C13_NoLoss == C11_NoLoss
 ---- \* C14 lifecycle machine
 IsCtlRet == E.ev = "ret" /\ (E.op \in ControlOps \/ E.op = "TunePool") /\ E.op # "CancelCtx"
 \* (which of its two errors TunePool reports when both apply - not running, and the same value - is pinned down nowhere)
-C14_Result == IsCtlRet /\ R.ref # "unknown" => \/ E.res = RefRes(R.ref, E.op, R.same)
-                                                \/ E.op = "TunePool" /\ R.ref # "running" /\ R.same /\ E.res = "ErrSameConcurrency"
+C14_Result == (IsCtlRet /\ R.ref # "unknown") =>
+                 (E.res = RefRes(R.ref, E.op, R.same) \/ (E.op = "TunePool" /\ R.ref # "running" /\ R.same /\ E.res = "ErrSameConcurrency"))
 C14_Status == IsCtlRet /\ R.ref # "unknown" => E.wss = StatusName(RefNext(R.ref, E.op))
 \* the worker never reports Running while unable to process jobs: at rest nothing accepted is left over
 C14_RunningMeansProcessing == Quiescent /\ ref = "running" /\ E.wss = "Running" /\ NoUnknown => E.pending = 0 /\ \A j \in Jobs : Accepted(j) /\ ~Excused(j) => exits[j] = 1
